@@ -1928,3 +1928,44 @@ def subscript(interp, obj, idx):  # noqa: F811
             return SMat(mat_cols(obj.t, k), (obj.shape[0], k))
         raise OutsideSubset("subscript of an opaque matrix")
     return _prev_subscript(interp, obj, idx)
+
+
+# ---- more numpy models (C03) ----------------------------------------------------------------------
+@model(np.zeros)
+def _np_zeros(interp, args, kwargs):
+    shape = args[0]
+    if all_concrete(args) and all_concrete(kwargs):
+        return interp.native(np.zeros, args, kwargs)
+    if not isinstance(shape, tuple):
+        shape = (shape,)
+    dt = kwargs.get("dtype", args[1] if len(args) > 1 else float)
+    dtn = _dtype_name(dt)
+    zero = _coerce(z3.IntVal(0), dtn)
+    dims = []
+    for s in shape:
+        s = interp.resolve(s)
+        t = to_z3(s)
+        c = interp.concrete_int(t)
+        dims.append(c if c is not None else t)
+    return SArr(tuple(dims), lambda idx: zero, dtn)
+
+
+@model(np.sqrt)
+def _np_sqrt(interp, args, kwargs):
+    v = interp.resolve(args[0])
+    if isinstance(v, (SInt, SReal)):
+        t = _coerce(_num(v), "float")
+        if not interp.ctx.branch(t >= 0):
+            raise OutsideSubset("sqrt of a negative symbolic number")
+        return _sqrt_of(interp, t, "sqrt")
+    return interp.native(np.sqrt, args, kwargs)
+
+
+@model(np.round)
+def _np_round(interp, args, kwargs):
+    v = interp.resolve(args[0])
+    if isinstance(v, SReal) and len(args) == 1 and not kwargs:
+        return SReal(z3.ToReal(round_half_even(v.t)))
+    if isinstance(v, SInt):
+        return v
+    return interp.native(np.round, args, kwargs)
